@@ -331,7 +331,9 @@ impl Display for WeekDayRange {
                     write!(f, "-{}", wday_str(*range.end()))?;
                 }
 
-                if nth_from_start.contains(&false) || nth_from_end.contains(&false) {
+                // An offset can only follow an explicit nth list (`Mo +1 day` does not parse)
+                if nth_from_start.contains(&false) || nth_from_end.contains(&false) || *offset != 0
+                {
                     let pos_weeknum_iter = nth_from_start
                         .iter()
                         .enumerate()
